@@ -1,10 +1,10 @@
 (* Model of token/internal/envelope/ipld.go: Inspect, FindTag, FromIPLD (the signature check) and ToIPLD. *)
 From Coq Require Import String.
-Require Import Base Node Cbor Did.
+Require Import Base Node Cbor Did Generated.
 Local Open Scope N_scope.
 
 Definition hdr_key : str := lit "h".
-Definition ucan_prefix : str := lit "ucan/".
+Definition ucan_prefix : str := src_ucan_tag_prefix.
 
 Record info := { in_tag : str; in_sig : str; in_hdr : str; in_sigpayload : node; in_payload : node }.
 
